@@ -96,6 +96,11 @@ def gen_entry(rnd, hostile):
     p = rnd.choice(PLATFORMS)
     if p:
         e["platform"] = list(p)
+    if rnd.random() < 0.15:
+        # long in bytes, short in characters (multi-byte script): byte- and rune-based truncation of the table cells disagree
+        e["command"] = e["command"].split(" ")[0] + " " + ws[0] + " " + "".join(rnd.choice("日本語検索結果表示") for _ in range(rnd.randint(14, 20)))
+        if rnd.random() < 0.5:
+            e["niche"] = "".join(rnd.choice("分類名前") for _ in range(rnd.randint(9, 14)))
     if rnd.random() < 0.12:   # printf-style verbs in the text: output code that passes text as a format string mangles them
         e["command"] += rnd.choice([" +%Y-%m-%d", " '%s %d'", " 100%", " %!v(MISSING)", " %%"])
         if rnd.random() < 0.5:
